@@ -106,7 +106,7 @@ def expand_event(M: Model, ev: Event, depth: int = 0) -> list[Event]:
     # a local that is assigned on several paths (`label = name` ... `label = alias + rest`): one event per assignment
     if isinstance(ev.value, ast.Name) and ev.store is None:
         bs = M.binds.get(ev.value.id, [])
-        if len(bs) > 1 and all(b.kind == "assign" and b.value is not None for b in bs):
+        if len(bs) > 1 and all(b.kind == "assign" and b.value is not None for b in bs) and not any(M.depends_on_name(b.value, ev.value.id) for b in bs):
             out: list[Event] = []
             for b in bs:
                 out += expand_event(M, clone(b.value, node=b.stmt), depth + 1)
@@ -391,6 +391,12 @@ def _comp_of(M: Model, e: ast.expr):
     e2 = M.resolve(e) if not isinstance(e, (ast.GeneratorExp, ast.ListComp, ast.SetComp)) else e
     while isinstance(e2, ast.Call) and isinstance(e2.func, ast.Name) and e2.func.id in ("list", "tuple", "iter") and len(e2.args) == 1 and not e2.keywords:
         e2 = e2.args[0]
+    if isinstance(e2, ast.Call) and ((isinstance(e2.func, ast.Name) and e2.func.id == "dropwhile") or (isinstance(e2.func, ast.Attribute) and e2.func.attr == "dropwhile")) and len(e2.args) == 2:
+        # next(dropwhile(pred, D)) is the first element of D for which pred does NOT hold
+        pred = _predicate_as_lambda(M, e2.args[0])
+        if pred is not None:
+            var = pred.args.args[0].arg
+            return var, M.resolve(e2.args[1]), [ast.UnaryOp(op=ast.Not(), operand=M.resolve(pred.body, frozenset({var})))]
     if isinstance(e2, ast.Call) and isinstance(e2.func, ast.Name) and e2.func.id == "filter" and len(e2.args) == 2:
         pred = _predicate_as_lambda(M, e2.args[0])
         if pred is not None:
@@ -607,6 +613,8 @@ def _spec_key(M: Model, key: ast.expr | None, items: bool) -> str | None:
         return "lex"
     if isinstance(key, ast.Name) and key.id == "len" and not items:
         return "spec"
+    if isinstance(key, ast.Name) and key.id == "len" and items is True:
+        return "constant"  # len of a (module, alias) pair is always 2: the sort keeps the order of the mapping
     if isinstance(key, ast.Attribute) and key.attr == "__len__" and isinstance(key.value, ast.Name) and key.value.id == "str" and not items:
         return "spec"
     if isinstance(key, (ast.Name, ast.Attribute)) and not isinstance(key, ast.Lambda):
@@ -715,6 +723,8 @@ def _sorted_order(M: Model, keywords, items: bool) -> str | None:
         return "asc" if r else "desc"
     if sk == "foreign":
         return "foreign"
+    if sk == "constant":
+        return "mapping"
     return None
 
 
@@ -952,6 +962,12 @@ def classify_atom(M: Model, text: str, n: str, c: str, label_names: set[str]) ->
             return "proper"
         if _is_name(e.args[0], c):
             return "raw"
+        if isinstance(e.args[0], ast.Tuple) and e.args[0].elts:
+            # str.startswith(tuple): true if ANY element is a prefix - with the bare name among them it is a plain prefix test
+            if any(_is_name(x, c) for x in e.args[0].elts):
+                return "raw"
+            if all(_dotted(x, c) for x in e.args[0].elts):
+                return "proper"
     # n.removeprefix("<c>.") == n   <=>   n is NOT a proper sub module of c
     if isinstance(e, ast.Compare) and len(e.ops) == 1 and isinstance(e.ops[0], ast.Eq):
         for a, b in ((e.left, e.comparators[0]), (e.comparators[0], e.left)):
@@ -1203,7 +1219,7 @@ def _rule_default(C, events: list[Event]) -> None:
     other = [ev for ev in events if ev.kind == "other" and ev.domain == "all" and ev.value is not None]
     if dflt:
         C.ok(r3, what, "modules without an aliased ancestor keep their full name", dflt[0].node)
-    elif other and not _has_helper_call(C, other[0].value) and {x.id for x in ast.walk(M.resolve(other[0].value)) if isinstance(x, ast.Name)} <= {other[0].n}:
+    elif other and not _has_helper_call(C, other[0].value) and {x.id for x in ast.walk(M.resolve(other[0].value)) if isinstance(x, ast.Name)} == {other[0].n}:
         C.bad(r3, what, f"a module without an aliased ancestor is labelled `{norm(other[0].value, 60)}`, not with its full name", other[0].node)
     elif any(ev.domain == "all" for ev in events):
         C.unsure(r3, what, "no store of the unchanged module name as label was recognised", events[0].node)
